@@ -131,3 +131,21 @@ def clear_completeness(ctx, fx, file, struct_path, method="clear", exempt=(), ru
                           fn.file, fn.line)
     ctx.instance(rule + ".fields", n)
     return n
+
+
+def clear_all(ctx, fx, files, rule="R-CLEAR"):
+    """R-CLEAR for every struct of `files` that has a `clear` method"""
+    seen = set()
+    total = 0
+    for f in sorted(files):
+        for fid in fx.fn_ids(f):
+            if not fid.endswith("::clear") or "::tests::" in fid:
+                continue
+            st = (fx.raw(fid)["self_ty"] or "").split("<")[0]
+            if not st or st in seen or st not in fx.adts:
+                continue
+            seen.add(st)
+            total += clear_completeness(ctx, fx, f, st, rule=rule)
+    ctx.instances[rule + ".fields"] = total
+    ctx.instance(rule + ".structs", len(seen))
+    return total
